@@ -2,18 +2,17 @@
 C42 — placeholder substitution in static-source URLs and forward destinations
 (internal/staticsources/handler.go `resolveSource`, internal/forward/dest_handler.go `resolveDest`).
 
-What the code does: a SEQUENCE of `strings.ReplaceAll` calls —
-  resolveSource: `$G<i>` for i = len(matches)-1 … 1 (descending), then `$MTX_QUERY`;
-  resolveDest:   `$MTX_PATH`, then `$G<i>` for i = len(matches)-1 … 1.
-Each call rescans the whole intermediate string, including what earlier calls inserted.
+What the code does (since /repo 8657437): it builds ONE `strings.NewReplacer` from the pairs
+  resolveSource: `$G<i>` → matches[i] for i = len(matches)-1 … 1 (descending), then `$MTX_QUERY` → query;
+  resolveDest:   `$MTX_PATH` → path name, then `$G<i>` → matches[i] for i = len(matches)-1 … 1
+and calls `Replace` once.
 
-`strings.ReplaceAll(s, old, new)` for a non-empty `old` (leftmost, non-overlapping occurrences) is
-modelled as the one-placeholder case of `simGo`; `strconv.FormatInt(i, 10)` as `dec`.
-
-What the property asks for (spec side): ONE left-to-right pass in which, at every position, the
-first placeholder of the priority list that matches there is replaced by its value and the scan
-continues after it — inserted values are never looked at (`sim`).  The priority list is the order
-of the calls, so at a position where `$G12` and `$G1` both match the longer one wins.
+`strings.Replacer.Replace` (generic algorithm; third-party, trusted): one left-to-right pass; at every
+position the FIRST pair of the argument list whose old string matches there is replaced by its value
+and the scan continues after it; inserted values are never looked at.  That is `sim` below, and the
+priority list is the argument order — so where `$G12` and `$G1` both match, the longer one wins.
+`strconv.FormatInt(i, 10)` is `dec`.  (The code before 8657437 made a sequence of `strings.ReplaceAll`
+calls, which rescanned inserted values; the witnesses of that defect stay in the harness' fixed cases.)
 -/
 import MtxVerif.Base.DriverLib
 
@@ -38,14 +37,8 @@ def simGo (phs : Phs) : Nat → Bytes → Bytes
     | some p => p.2 ++ simGo phs (p.1.length - 1) r
     | none => c :: simGo phs 0 r
 
-/-- simultaneous substitution -/
+/-- `strings.NewReplacer(pairs…).Replace(s)` -/
 def sim (phs : Phs) (s : Bytes) : Bytes := simGo phs 0 s
-
-/-- `strings.ReplaceAll(s, old, new)`, `old` non-empty -/
-def replaceAll (old new s : Bytes) : Bytes := simGo [(old, new)] 0 s
-
-/-- the sequence of `ReplaceAll` calls -/
-def seq (phs : Phs) (s : Bytes) : Bytes := phs.foldl (fun acc p => replaceAll p.1 p.2 acc) s
 
 /-- `strconv.FormatInt(n, 10)` for `n ≥ 0` -/
 def decGo : Nat → Nat → Bytes
@@ -60,7 +53,7 @@ def phG (i : Nat) : Bytes := DOLLAR :: 71 :: dec i
 def MTX_PATH : Bytes := [36, 77, 84, 88, 95, 80, 65, 84, 72]          -- $MTX_PATH
 def MTX_QUERY : Bytes := [36, 77, 84, 88, 95, 81, 85, 69, 82, 89]     -- $MTX_QUERY
 
-/-- `for i := len(matches) - 1; i >= 1; i-- { … "$G"+i → matches[i] }` as a list of calls -/
+/-- `for i := len(matches) - 1; i >= 1; i-- { oldnew = append(oldnew, "$G"+i, matches[i]) }` -/
 def groupPhs (ms : List Bytes) : Phs :=
   (List.range (ms.length - 1)).reverse.map fun j => (phG (j + 1), ms.getD (j + 1) [])
 
@@ -69,15 +62,10 @@ def destPhs (pathName : Bytes) (ms : List Bytes) : Phs := (MTX_PATH, pathName) :
 
 /-- `resolveSource(s, matches, query)` -/
 def resolveSource (s : Bytes) (ms : List Bytes) (query : Bytes) : Bytes :=
-  replaceAll MTX_QUERY query (seq (groupPhs ms) s)
+  sim (sourcePhs ms query) s
 
 /-- `resolveDest(dest, pathName, matches)` -/
 def resolveDest (dest pathName : Bytes) (ms : List Bytes) : Bytes :=
-  seq (groupPhs ms) (replaceAll MTX_PATH pathName dest)
-
-/-- The decidable class of the finding: inputs on which the sequence of `ReplaceAll` calls differs
-from the single simultaneous pass (a replacement completes or creates a placeholder: `$G$G2` with
-group 2 = "1"; `$G1$G13` with group 13 = "2"; a `$…` inside a value that is scanned again). -/
-def spliceTemplate (phs : Phs) (s : Bytes) : Bool := seq phs s != sim phs s
+  sim (destPhs pathName ms) dest
 
 end MtxVerif.C42
